@@ -116,20 +116,25 @@ func (c *checkpointHashesHolder) computeCurrentSize() {
 	c.currentSize = totalSize
 }
 
-// Remove removes the given hash from all the entries
+// Remove removes the given hash from the oldest entry that contains it. A newer entry that also contains the hash means that
+// the node was created again by a later commit: it must stay there, because a snapshot taken in between for a root that
+// did not hold the node starts a new snapshot DB without it, and the next checkpoint has to write it
 func (c *checkpointHashesHolder) Remove(hash []byte) {
 	c.mutex.Lock()
 	defer c.mutex.Unlock()
 
 	for _, hashesMap := range c.hashes {
-		c.removeHashFromMap(hash, hashesMap)
+		removed := c.removeHashFromMap(hash, hashesMap)
+		if removed {
+			return
+		}
 	}
 }
 
-func (c *checkpointHashesHolder) removeHashFromMap(hash []byte, hashesMap data.ModifiedHashes) {
+func (c *checkpointHashesHolder) removeHashFromMap(hash []byte, hashesMap data.ModifiedHashes) bool {
 	_, ok := hashesMap[string(hash)]
 	if !ok {
-		return
+		return false
 	}
 
 	delete(hashesMap, string(hash))
@@ -137,10 +142,11 @@ func (c *checkpointHashesHolder) removeHashFromMap(hash []byte, hashesMap data.M
 	ok = checkCorrectSize(c.currentSize, c.hashSize)
 	if !ok {
 		c.computeCurrentSize()
-		return
+		return true
 	}
 
 	c.currentSize -= c.hashSize
+	return true
 }
 
 func getMapSize(hashesMap data.ModifiedHashes, hashSize uint64) uint64 {
